@@ -70,9 +70,19 @@ def main():
         print('  demo output (with change):', (d1.stdout + d1.stderr).strip()[-400:].replace('\n', ' | '))
         meta['confirmed'] = bool(meta['baseline_66_pass'] and d1.returncode == 1 and d0.returncode == 0)
         runs = {}
+        # a stored seed may name environment switches its detection needs (e.g. GV_HUGE=1: the >256 MiB unit of C01,
+        # which belongs to the thorough tier, is added to the quick run)
+        eval_env = {}
+        if os.path.exists(os.path.join(sd, 'meta.json')):
+            try:
+                eval_env = dict(json.load(open(os.path.join(sd, 'meta.json'))).get('eval_env') or {})
+            except Exception:
+                eval_env = {}
+        if eval_env:
+            meta['eval_env'] = eval_env
         for pr in props:
             for seed in args.seeds.split(','):
-                env = dict(os.environ, GV_SRC=os.path.join(tmp, 'src'), VERIF_SEED=seed)
+                env = dict(os.environ, GV_SRC=os.path.join(tmp, 'src'), VERIF_SEED=seed, **eval_env)
                 r = sh(['/venv/bin/python', '-m', 'gv', pr, '--tier', args.tier, '--no-evidence'], cwd=VERIF, env=env)
                 detail = [ln.strip() for ln in r.stdout.splitlines() if ln.startswith('  detail')][:1]
                 runs[f'{pr}@seed{seed}'] = {'rc': r.returncode, 'detail': detail[0][:300] if detail else ''}
